@@ -25,6 +25,32 @@ CLAIMED = {
               "volume terms) and the Lean reference semantics locates sample points in the written file. Not proved: "
               "denotation preservation of remove_empty/unused_volumes (stated as a def)."),
         design_ref='§8 C01'),
+    'C02': dict(
+        technique='Lean 4 proof (polynomial identities + sign witness over an arbitrary ordered field, per card of the mnemonic table) + model↔code correspondence per card + Lean point monitor',
+        text=("Proved in Lean over any linearly ordered field (transcendental functions only through sqrt(x)²=x, "
+              "tan(atan x)=x, π≠0; instantiated at ℝ): for every card of PX/PY/PZ, P (4 entries), SO/S/SX/SY/SZ, "
+              "C/X.. and CX.., K/X.. and KX.. with and without the sheet selector, SQ (constant term ≤ 0), GQ, TX/TY/TZ "
+              "(6 entries) and the point-defined X/Y/Z (plane, cylinder and one-sheet cone cases), the model of "
+              "normalize_surface + mcnp2cad + conversion_surface_params emits surfaces whose implicit function is a "
+              "positive multiple of MCNP's (same zero set, same sense at every point), resp. for one-sheet cones a "
+              "(cone, apex plane, side) pair selecting exactly MCNP's sheet (elementary_card, axisym_*). The SQ cards "
+              "with positive constant term are proved to come out with reversed orientation "
+              "(sq_positive_centre_is_reversed = open finding F14). The model is compared with the code card by card "
+              "(kind, side, parameters to 1e-9) and the Lean spec monitor locates sample points in probe decks. Not "
+              "proved: the three-point form of P (orientation cascade; correspondence + monitor only) and the "
+              "5-entry torus."),
+        design_ref='§8 C02'),
+    'C03': dict(
+        technique='Lean 4 proof (facet-by-facet agreement over an arbitrary ordered field; cross-product identities for either handedness) + model↔code correspondence per body + Lean point monitor',
+        text=("Proved in Lean over any linearly ordered field: for RPP, SPH, BOX with mutually orthogonal edges of "
+              "either handedness, RCC (any axis, all four branches of convert_cylinder), RHP/HEX with 15 entries and WED "
+              "(right wedge, either orientation of the slanted facet) the k-th emitted signed surface is MCNP's k-th "
+              "facet with the outward side positive (BodyOK); hence a negative reference selects exactly the points "
+              "inside every facet, a positive reference the points outside some facet (body_reference), and b.k "
+              "designates the k-th facet (facet_reference). The model (MacroBodies.py facets → cards → join) is "
+              "compared with the code body by body incl. TRC; REC, ELL, ARB and the 9-entry RHP (transformation_quad, "
+              "rotate, vertex tables) are decided by the Lean spec monitor on probe decks only."),
+        design_ref='§8 C03'),
     'C06': dict(
         technique='Lean 4 proof (induction over the index ranges; field identities for the dual basis) + model↔code correspondence + Lean point monitor on lattice decks',
         text=("Proved in Lean for any number of ranges of any (also negative or one-element) extent: LatticeBounds.indices "
